@@ -43,6 +43,8 @@ type Engine struct {
 	ghostGlobals map[string]int64
 	warnings []string
 	epochs   int
+	tu       *typeUniverse
+	withLemmas bool
 }
 
 type Options struct {
@@ -52,6 +54,7 @@ type Options struct {
 	MaxPaths int
 	Jobs     int
 	Overflow bool
+	Keep     bool
 }
 
 func LoadEngine(repo string, patterns []string, opts Options) (*Engine, error) {
@@ -64,7 +67,7 @@ func LoadEngine(repo string, patterns []string, opts Options) (*Engine, error) {
 	}
 	e.fset = token.NewFileSet()
 	cfg := &packages.Config{
-		Mode:       packages.LoadAllSyntax,
+		Mode:       packages.LoadAllSyntax | packages.NeedTypesInfo,
 		Dir:        repo,
 		Fset:       e.fset,
 		BuildFlags: []string{"-tags=verif"},
